@@ -18,18 +18,22 @@
    For adsa / gdba, [iso n] = what relations.optimal_cost_value returns for an isolated variable
    (C06 proves it is a domain member).
 
-   DBA is only PARTIAL: the model M_Dba.v renders value_selection(None) as the value 0, and after an
-   IndexError of random.choice([]) in _handle_ok_message (every value evaluates above `infinity`)
-   _can_move stays True while _new_value may still be None.  [dba_selects_in_domain_partial]:
-   a selected value is in the domain unless that node has raised this IndexError earlier in the
-   run; [dba_selects_in_domain_refuted] is a run (on neighbour lists that are NOT symmetric, which
-   no real constraint graph produces) where the model then reports 0 = the code's None ("unset",
-   which C10 allows).  Full statement, not proved: for symmetric neighbour lists every EvSelect
-   value is in the domain; missing: the cross-node barrier invariant that excludes a second
-   dba_ok from the same neighbour within a cycle. *)
+   DBA: the model M_Dba.v renders value_selection(None) as the value 0, and after an IndexError of
+   random.choice([]) in _handle_ok_message (every value evaluates above `infinity`) _can_move stays
+   True while _new_value may still be None.  FULL statement, proved ([dba_selects_in_domain], deepening):
+   on every well-formed problem (wf_problem: each variable's constraint list holds exactly the
+   constraints it occurs in, hence symmetric neighbour lists) every EvSelect value is in the domain,
+   for every schedule - IndexError or not, before and after finished().  It rests on a counting
+   barrier invariant over all channels, postponed lists and pre-start buffers (P_SelectDba2.KI) that
+   excludes a second dba_ok of the same neighbour within a cycle and shows that a computation whose
+   improve() raised stays stuck in 'ok' mode for ever.  Kept from the first round:
+   [dba_selects_in_domain_partial] (NO hypothesis on the instance: a selected value is in the domain
+   unless that node raised this IndexError earlier in the run) and [dba_selects_in_domain_refuted]
+   (on neighbour lists that are NOT symmetric, which no real constraint graph produces, the model
+   does report 0 = the code's None, "unset", which C10 allows): wf_problem cannot be dropped. *)
 From PyDcop Require Import Base Net.
-From PyDcop Require M_SyncMixin M_Select P_Select M_SyncBB P_SelectBB M_Dpop P_SelectDpop
-                    M_Mgm M_Mgm2 P_SelectMgm M_Dsa M_Dba P_SelectDba M_MaxSum P_SelectMaxSum.
+From PyDcop Require M_SyncMixin M_Select P_Select M_SelectBest P_SelectBest M_SyncBB P_SelectBB M_Dpop P_SelectDpop
+                    M_Mgm M_Mgm2 P_SelectMgm M_Dsa M_Dba P_Dba P_SelectDba P_SelectDba3 M_MaxSum P_SelectMaxSum.
 
 (* ---------------------------------------------------------------- the funnel *)
 Definition S_funnel : Prop := forall dom args, Forall (P_Select.ok dom) args ->
@@ -61,6 +65,40 @@ Definition S_gdba : Prop := forall dom init nbrs iso mx orc gevs,
      (M_Select.g_val (w_st (nodes (fst (run (M_Select.gdba_proto dom init nbrs iso mx orc gevs) sched)) n)))).
 Theorem gdba_selects_in_domain : S_gdba.
 Proof. exact P_Select.gdba_selects_in_domain_l. Qed.
+
+(* ---- deepening 2: the best-value lists of adsa / gdba are no longer inputs (masks) but computed by
+   renderings of adsa.find_best_values ([fbv]) and gdba._compute_best_improvement ([cbi]) from the cost
+   of every domain value (M_SelectBest.v).  Specification of the two functions: the list returned is
+   exactly the domain values whose cost is the optimum b, in domain order, b is one of the costs and
+   no cost beats it; in particular it is a sub-list of the domain. *)
+Definition S_best (f : bool -> list Z -> list Z -> list Z -> option Z -> list Z * option Z) : Prop :=
+  forall mx vals costs,
+  (forall x, In x (fst (f mx vals costs [] None)) -> In x vals) /\
+  match snd (f mx vals costs [] None) with
+  | None => (vals = [] \/ costs = []) /\ fst (f mx vals costs [] None) = []
+  | Some b => In b (P_SelectBest.seen vals costs) /\ P_SelectBest.unbeaten mx vals costs b
+              /\ fst (f mx vals costs [] None) = M_Select.masked vals (M_SelectBest.opt_mask costs b)
+  end.
+Theorem adsa_find_best_values_spec : S_best M_SelectBest.fbv.
+Proof. exact (fun mx vals costs => conj (P_SelectBest.fbv_in_domain mx vals costs) (P_SelectBest.fbv_spec mx vals costs)). Qed.
+Theorem gdba_compute_best_improvement_spec : S_best M_SelectBest.cbi.
+Proof. exact (fun mx vals costs => conj (P_SelectBest.cbi_in_domain mx vals costs) (P_SelectBest.cbi_spec mx vals costs)). Qed.
+
+Definition S_adsa2 : Prop := forall dom nbrs iso orc variant prob mx acosts,
+  (forall n, P_Select.ok (dom n) (iso n)) -> forall sched,
+  (forall e, In e (snd (run (M_SelectBest.adsa2_proto dom nbrs iso orc variant prob mx acosts) sched)) -> P_Select.sev_ok dom e) /\
+  (forall n, P_Select.ok (dom n)
+     (M_Select.a_val (w_st (nodes (fst (run (M_SelectBest.adsa2_proto dom nbrs iso orc variant prob mx acosts) sched)) n)))).
+Theorem adsa2_selects_in_domain : S_adsa2.
+Proof. exact P_SelectBest.adsa2_selects_in_domain. Qed.
+
+Definition S_gdba2 : Prop := forall dom init nbrs iso mx orc gcosts,
+  (forall n, P_Select.ok (dom n) (iso n)) -> (forall n, P_Select.ok (dom n) (init n)) -> forall sched,
+  (forall e, In e (snd (run (M_SelectBest.gdba2_proto dom init nbrs iso mx orc gcosts) sched)) -> P_Select.sev_ok dom e) /\
+  (forall n, P_Select.ok (dom n)
+     (M_Select.g_val (w_st (nodes (fst (run (M_SelectBest.gdba2_proto dom init nbrs iso mx orc gcosts) sched)) n)))).
+Theorem gdba2_selects_in_domain : S_gdba2.
+Proof. exact P_SelectBest.gdba2_selects_in_domain. Qed.
 
 (* ---------------------------------------------------------------- dpop (values are domain indices) *)
 Definition S_dpop : Prop := forall P sched,
@@ -126,6 +164,30 @@ Theorem dba_selects_in_domain_refuted :
     In (M_Dba.EvSelect n v c k) (snd (run (M_Dba.dba_proto cs ncs dom infinity maxd orc0) sched)) /\ ~ In v (dom n).
 Proof. exact P_SelectDba.dba_selects_in_domain_refuted. Qed.
 
+(* dba, full statement on well-formed problems: no IndexError clause, every schedule, before and after
+   finished() (deepening; P_SelectDba2.v / P_SelectDba3.v) *)
+Definition S_dba : Prop := forall cs ncs dom infinity maxd orc0 sched,
+  M_Dba.wf_problem cs ncs ->
+  let r := run (M_Dba.dba_proto cs ncs dom infinity maxd orc0) sched in
+  (forall n v c k, In (M_Dba.EvSelect n v c k) (snd r) -> In v (dom n)) /\
+  (forall n v, M_Dba.d_value (w_st (nodes (fst r) n)) = Some v -> In v (dom n)) /\
+  (forall n v, M_Dba.d_new (w_st (nodes (fst r) n)) = Some v -> In v (dom n)).
+Theorem dba_selects_in_domain : S_dba.
+Proof. exact P_SelectDba3.dba_selects_in_domain_wf. Qed.
+
+(* non-vacuity of S_dba: a well-formed instance whose computations select and then raise IndexError
+   (infinity 0), and one whose run goes on after every computation called finished() twice *)
+Example dba_c10_nonvacuous :
+  M_Dba.wf_problem P_Dba.ex_cs P_Dba.ex_ncs
+  /\ snd (run (M_Dba.dba_proto P_Dba.ex_cs P_Dba.ex_ncs P_Dba.ex_dom 0 1 P_Dba.ex_orc)
+               [Start 0; Start 1; Deliver 0 1; Deliver 1 0; Deliver 0 1; Deliver 1 0])
+     = [M_Dba.EvSelect 0 0 None 0; M_Dba.EvSelect 1 0 None 0; M_Dba.EvRaise 1 1; M_Dba.EvRaise 0 1]
+  /\ snd (run (M_Dba.dba_proto P_Dba.ex_cs P_Dba.ex_ncs P_Dba.ex_dom 10000 1 P_Dba.ex_orc) P_Dba.ex_sched)
+     = [M_Dba.EvSelect 0 0 None 0; M_Dba.EvSelect 1 0 None 0; M_Dba.EvCycle 1 1; M_Dba.EvCycle 0 1;
+        M_Dba.EvSelect 0 1 (Some 0) 1; M_Dba.EvCycle 1 2; M_Dba.EvFinished 1; M_Dba.EvCycle 0 2;
+        M_Dba.EvFinished 0; M_Dba.EvFinished 1; M_Dba.EvFinished 0].
+Proof. exact P_SelectDba3.dba_selects_in_domain_nonvacuous. Qed.
+
 (* ---------------------------------------------------------------- maxsum, amaxsum (domain indices) *)
 Definition S_maxsum : Prop := forall P G sched n vd dc, P_SelectMaxSum.wf_vars G ->
   zlookup n (M_MaxSum.d_vars G) = Some vd ->
@@ -146,12 +208,14 @@ Proof. exact P_SelectMaxSum.amaxsum_selects_in_domain. Qed.
 (* ---------------------------------------------------------------- all 11 algorithms *)
 Theorem C10_all :
   S_funnel /\ S_dpop /\ S_syncbb /\ S_mgm /\ S_mgm2 /\ S_dsa /\ S_adsa /\ S_dsatuto /\ S_dba_partial /\ S_gdba /\
-  S_maxsum /\ S_amaxsum.
+  S_maxsum /\ S_amaxsum /\ S_dba /\ S_adsa2 /\ S_gdba2 /\ S_best M_SelectBest.fbv /\ S_best M_SelectBest.cbi.
 Proof.
   exact (conj funnel_in_domain (conj dpop_selects_in_domain (conj syncbb_selects_in_domain
         (conj mgm_selects_in_domain (conj mgm2_selects_in_domain (conj dsa_selects_in_domain
         (conj adsa_selects_in_domain (conj dsatuto_selects_in_domain (conj dba_selects_in_domain_partial
-        (conj gdba_selects_in_domain (conj maxsum_selects_in_domain amaxsum_selects_in_domain))))))))))).
+        (conj gdba_selects_in_domain (conj maxsum_selects_in_domain (conj amaxsum_selects_in_domain
+        (conj dba_selects_in_domain (conj adsa2_selects_in_domain (conj gdba2_selects_in_domain
+        (conj adsa_find_best_values_spec gdba_compute_best_improvement_spec)))))))))))))))).
 Qed.
 
 (* ---------------------------------------------------------------- non-vacuity: a 2-variable gdba
